@@ -38,6 +38,30 @@ InstGrammar(e) ==
       IP == UNION { Inst(e, Vs, p) : p \in P } \cup { <<"#S0", <<e.start \o "#" \o v>>>> : v \in Dom(e) }
       AV == { p[1] : p \in IP } \cup { x \o "#" \o v : x \in Vs, v \in Dom(e) } \cup {"#S0"}
   IN [start |-> "#S0", vars |-> AV, allv |-> AV, terms |-> ToSet(e.terms), prods |-> IP]
+(* ---- two features (n, m) and two agreement variables (x, y) per production: an annotation is a pair <<an, am>>, each
+   component "-" | constant | "x" | "y"; an instantiated variable is  name # vn . vm *)
+Ch2(e, a, xv, yv) == IF a = "-" THEN Dom(e) ELSE IF a = "x" THEN {xv} ELSE IF a = "y" THEN {yv} ELSE {a}
+AnnChoices2(e, ann, xv, yv) == { a \o "." \o b : a \in Ch2(e, ann[1], xv, yv), b \in Ch2(e, ann[2], xv, yv) }
+RECURSIVE BodyInst2(_,_,_,_,_,_,_)
+BodyInst2(e, Vs, body, anns, xv, yv, i) ==
+  IF i > Len(body) THEN {<<>>}
+  ELSE LET rest == BodyInst2(e, Vs, body, anns, xv, yv, i + 1) IN
+       IF body[i] \in Vs THEN { <<body[i] \o "#" \o v>> \o r : v \in AnnChoices2(e, anns[i], xv, yv), r \in rest }
+       ELSE { <<body[i]>> \o r : r \in rest }
+Inst2(e, Vs, p) == UNION { { <<p[1] \o "#" \o hv, b>> : hv \in AnnChoices2(e, p[2], xv, yv), b \in BodyInst2(e, Vs, p[3], p[4], xv, yv, 1) }
+                           : xv \in Dom(e), yv \in Dom(e) }
+Pairs(e) == { a \o "." \o b : a \in Dom(e), b \in Dom(e) }
+InstGrammar2(e) ==
+  LET P == ToSet(e.prods)
+      Vs == ToSet(e.vars)
+      IP == UNION { Inst2(e, Vs, p) : p \in P } \cup { <<"#S0", <<e.start \o "#" \o v>>>> : v \in Pairs(e) }
+      AV == { p[1] : p \in IP } \cup { x \o "#" \o v : x \in Vs, v \in Pairs(e) } \cup {"#S0"}
+  IN [start |-> "#S0", vars |-> AV, allv |-> AV, terms |-> ToSet(e.terms), prods |-> IP]
+JContains2(e) ==
+  IF Has(e, "exc") THEN Fl("fcfg_contains.noexc")
+  ELSE LET LG == CF!Lang(InstGrammar2(e), e.L) acc == ToSet(e.acc) IN
+       Chk(\A i \in DOMAIN e.words : (e.words[i] \in acc) => (e.words[i] \in LG), "fcfg_contains.sound")
+       \cup Chk(\A i \in DOMAIN e.words : (e.words[i] \in LG) => (e.words[i] \in acc), "fcfg_contains.complete")
 JContains(e) ==
   IF Has(e, "exc") THEN Fl("fcfg_contains.noexc")
   ELSE LET LG == CF!Lang(InstGrammar(e), e.L) acc == ToSet(e.acc) IN
@@ -48,6 +72,7 @@ Judge(e) ==
   CASE e.op = "fs_build" -> JBuild(e)
     [] e.op = "unify" -> JUnify(e)
     [] e.op = "fcfg_contains" -> JContains(e)
+    [] e.op = "fcfg_contains2" -> JContains2(e)
     [] OTHER -> Fl("unknown-op")
 
 Init == l = 1 /\ out = {}
